@@ -359,6 +359,10 @@ func decodeBitString(data []byte) string {
 	if bitlen == 0 {
 		return ""
 	}
+	// never produce more bits than the value holds
+	if avail := (len(data) - 4) * 8; bitlen > avail {
+		bitlen = avail
+	}
 
 	var sb strings.Builder
 	for i := 0; i < bitlen; i++ {
